@@ -629,7 +629,9 @@ class Reaction(Object):
         # Make the genes aware that it is involved in this reaction
         for g in self._genes:
             self._associate_gene(g)
-            if context:
+            # a gene that was part of the reaction before stays part of it when
+            # the change is reverted
+            if context and g not in old_genes:
                 context(partial(self._dissociate_gene, g))
 
         # make the old genes aware they are no longer involved in this reaction
